@@ -603,6 +603,15 @@ func c17Jobs(tier string) []Job {
 			jobs = append(jobs, Job{Scenario: sc, Bound: bound})
 		}
 	}
+	// the counters themselves: EVERY atomic operation is a schedule point here (elsewhere the
+	// striped counters are updated without a point because atomic adds commute - which is a
+	// fact about the current code, not about every change to it); keys 1 and 26 share a stripe
+	mp := cfg
+	mp.MetricPoints = true
+	for i, pr := range [][2][]Op{{{get(1)}, {get(1)}}, {{get(1)}, {get(26)}}, {{get(26), get(1)}, {get(1)}}, {{set(26, 1)}, {set(1, 1)}}, {{set(26, 1)}, {get(1)}}, {{{K: "del", Key: 1}}, {set(26, 1)}}} {
+		sc := &Scenario{Name: fmt.Sprintf("dfs/metric-cells-are-points/%d", i), Cfg: mp, Setup: []Op{set(1, 1), {K: "wait"}}, Threads: [][]Op{cp(pr[0]), cp(pr[1])}, Epilogue: []Op{{K: "wait"}, {K: "metrics"}, {K: "remaining"}}}
+		jobs = append(jobs, Job{Scenario: sc, Bound: bound})
+	}
 	return jobs
 }
 
